@@ -1,4 +1,5 @@
 import Props.C01
 import Props.C05
+import Props.C10
 import Props.C15
 import Props.C19
